@@ -416,6 +416,11 @@ class DemoStorage(ConflictResolvingStorage):
 
         with self._lock:
             try:
+                if not a and not k:
+                    # Transaction ids must keep increasing across the two
+                    # layers, even if the base was written ahead of our clock.
+                    a = (ZODB.utils.newTid(max(self.base.lastTransaction(),
+                                               self.changes.lastTransaction())),)
                 self.changes.tpc_begin(transaction, *a, **k)
             except:  # noqa: E722 do not use bare 'except'
                 # The delegate refused (e.g. over-long metadata).  We are not
